@@ -50,6 +50,8 @@ type casPlan struct {
 	ToggleFF   bool              `json:"toggle_fail_first_while_running,omitempty"` // the setting is changed after Start()
 	ResetCycle bool              `json:"reset_cycle,omitempty"`                     // configure, add a rule, Reset(), then add the real rules (multi-step API sequence)
 	Workers    int               `json:"workers"`
+	Resize     int               `json:"resize_to,omitempty"`     // >0: the pool of the running processor is resized (without waiting) before the events arrive
+	Settle     bool              `json:"resize_settled,omitempty"` // ... after its workers have gone to sleep
 	FailFirst  bool              `json:"fail_first"`
 	NKinds     int               `json:"kinds"`
 	Rules      []casRule         `json:"rules"`
@@ -81,6 +83,10 @@ func casGen(r *simrt.RNG, tier string) interface{} {
 	}
 	p.FailFirst = r.Bool(0.5)
 	p.ResetCycle = r.Bool(0.15)
+	if r.Bool(0.12) {
+		p.Resize = 1 + r.Intn(p.Workers+1)
+		p.Settle = r.Bool(0.6)
+	}
 	p.ToggleFF = r.Bool(0.15)
 	p.NKinds = 2 + r.Intn(5)
 	widePrio := r.Bool(0.3) // many distinct priority levels active at once
@@ -148,7 +154,7 @@ func casGen(r *simrt.RNG, tier string) interface{} {
 	}
 	nc := 1 + r.Intn(3)
 	nested := false
-	if p.Workers >= 2 && r.Bool(0.12) {
+	if p.Workers >= 2 && (p.Resize == 0 || p.Resize >= 2) && r.Bool(0.12) {
 		// nested wait: one rule on kind 0 waits for a cascade of its own.  Kind 0 is never
 		// a child kind and (below) only one root event of kind 0 is added, so at most one
 		// worker is ever blocked in a wait and another one is always available.
@@ -311,6 +317,11 @@ func casShrink(pi interface{}) []interface{} {
 	if p.Workers > 1 {
 		q := clone()
 		q.Workers = p.Workers - 1
+		out = append(out, q)
+	}
+	if p.Resize > 0 {
+		q := clone()
+		q.Resize, q.Settle = 0, false
 		out = append(out, q)
 	}
 	if p.ResetCycle {
@@ -549,7 +560,7 @@ func (st *casState) sampleHPAtomic(e *casEvent, m engine.Monitor) {
 	}
 	// exact value when nobody else is in the middle of activating or finishing a
 	// monitor: one worker (the sampler) and no AddEvent call in progress
-	if st.p.Workers == 1 && st.inAdd[e.root] == 0 {
+	if st.p.Workers == 1 && st.p.Resize <= 1 && st.inAdd[e.root] == 0 {
 		want := -1
 		for _, x := range st.events {
 			if x.root != e.root || x.mon == nil || x.skipped {
@@ -660,6 +671,13 @@ func casRun(p *casPlan, prop string) {
 		}
 	}
 	proc.Start()
+	if p.Resize > 0 && p.Resize != p.Workers {
+		if p.Settle {
+			simrt.WaitQuiescent()
+		}
+		simrt.Count("fault_pool_resized_while_running")
+		proc.ThreadPool().SetWorkerCount(p.Resize, false)
+	}
 	if p.ToggleFF {
 		// changed on the running processor, before any event is added
 		proc.SetFailOnFirstErrorInTriggerSequence(p.FailFirst)
